@@ -1,4 +1,11 @@
-Require Import Base Lock.
+Require Import Base Extracted Lock.
+
+(* the action lists read from the source are the ones this development reasons about *)
+Definition writer_lit : list act := [ALock; ARead 0; ARead 1; ARead 2; AWrite 1; AWrite 0; AWrite 2; AUnlock].
+Definition reader_lit : list act := [ALock; ARead 0; ARead 1; ARead 2; AUnlock].
+Lemma writer_prog_is : writer_prog = writer_lit. Proof. reflexivity. Qed.
+Lemma reader_prog_is : reader_prog = reader_lit. Proof. reflexivity. Qed.
+Lemma store_lock_exclusive : STORE_LOCK_EXCLUSIVE = true. Proof. reflexivity. Qed.
 
 Lemma updf_same {A} (m : nat -> A) k v : updf m k v k = v.
 Proof. unfold updf. rewrite Nat.eqb_refl. reflexivity. Qed.
@@ -78,7 +85,7 @@ Proof.
     destruct (Nat.eq_dec p h) as [->|Hne].
     + (* the holder moves *)
       unfold prog_of, len, prog_of in *. remember (pos (procs s h)) as n eqn:En.
-      destruct (role h) eqn:R; cbn [length writer_prog reader_prog] in *.
+      rewrite writer_prog_is, reader_prog_is in *. destruct (role h) eqn:R; cbn [length writer_lit reader_lit] in *.
       * (* writer *)
         assert (Hn : n = 1 \/ n = 2 \/ n = 3 \/ n = 4 \/ n = 5 \/ n = 6 \/ n = 7) by lia.
         destruct Hn as [->|[->|[->|[->|[->|[->| ->]]]]]]; cbn in E; inversion E; subst a; clear E;
@@ -103,8 +110,8 @@ Proof.
     + (* someone else: it is outside, i.e. at its ALock (blocked) *)
       destruct (Hout p Hne) as [Hz|Hend]; [|lia].
       rewrite Hz in E. unfold prog_of in E. destruct (role p); cbn in E; inversion E; subst a.
-      * constructor; [intros Hn; rewrite H in Hn; discriminate|intros h0 Hh0; rewrite H in Hh0; apply Iheld; exact Hh0].
-      * constructor; [intros Hn; rewrite H in Hn; discriminate|intros h0 Hh0; rewrite H in Hh0; apply Iheld; exact Hh0].
+      * rewrite store_lock_exclusive. constructor; [intros Hn; rewrite H in Hn; discriminate|intros h0 Hh0; rewrite H in Hh0; apply Iheld; exact Hh0].
+      * rewrite store_lock_exclusive. constructor; [intros Hn; rewrite H in Hn; discriminate|intros h0 Hh0; rewrite H in Hh0; apply Iheld; exact Hh0].
   - (* the lock is free: everybody is outside; only a process at position 0 can move, by locking *)
     destruct (Ifree eq_refl) as [Hall Hfiles].
     destruct (Hall p) as [Hz|Hend]; [|lia].
